@@ -1,6 +1,7 @@
 CONSTANTS
     Mode = "all"
     EffSrcLocs = {"", "l2"}
+    ExtraItems = {"readonly"}
 INIT Init
 NEXT Next
 INVARIANT MountOrderFree
